@@ -109,6 +109,17 @@ def check_parser(ctx: Ctx, modname: str, fname: str, file: str) -> None:
             raise Unsupported(f"call of {func.label}")
 
         it.ext_handlers["opaque-call"] = opaque_call
+
+        def deepcopy(_it, args, kwargs):
+            # lemma: copy.deepcopy recurses per nesting level and raises RecursionError for very deep trees; here: the trees of "deep..." strings
+            v_ = args[0]
+            leaves_ = [c for c in (v_.fields.get("children") or [])] if isinstance(v_, Obj) and v_.cls == "lark.Tree" else []
+            first_ = leaves_[0].fields.get("children", [None])[0] if leaves_ and isinstance(leaves_[0], Obj) and leaves_[0].cls == "lark.Tree" else None
+            if isinstance(first_, Obj) and isinstance(first_.fields.get("value"), str) and first_.fields["value"].startswith("deep"):
+                raise PyRaise(Obj("builtins.RecursionError", {"args": ("maximum recursion depth exceeded",)}))
+            return _it.deepcopy(v_, {})
+
+        it.ext_handlers["copy.deepcopy"] = deepcopy
         # the raw function must not go through it.call's decorator check: summaries keyed by qualname are not used;
         # instead decorators are applied explicitly here
         public = it.funcval(fn.qualname)
@@ -139,6 +150,8 @@ def check_parser(ctx: Ctx, modname: str, fname: str, file: str) -> None:
             try:
                 r = it.call(public, [], {fn.params[0]: text}, None, None) if by_keyword else it.call(public, [text], {}, None, None)
             except PyRaise as err:
+                if err.exc.cls == "builtins.RecursionError" and text.startswith("deep"):
+                    return  # the same exception for the same string every time: still a function of the string
                 issues.append(f"{what}: parse({text!r}) raises {err.exc.cls}")
                 return
             if shape(r) != shape(fresh_tree(text)):
@@ -167,6 +180,11 @@ def check_parser(ctx: Ctx, modname: str, fname: str, file: str) -> None:
         parse("s2", "fresh string")
         vandalise(handed_out[-1])
         parse("s2", "fresh string again after editing")
+        parse("deep1", "tree too deep for copy.deepcopy (cache miss)")
+        parse("deep1", "tree too deep for copy.deepcopy (cache hit)")
+        if handed_out and shape(handed_out[-1]) == shape(fresh_tree("deep1")):
+            vandalise(handed_out[-1])
+        parse("deep1", "tree too deep for copy.deepcopy, after editing what was returned")
         parse("s3", "string passed by keyword (cache miss)", by_keyword=True)
         parse("s3", "string passed by keyword (cache hit)", by_keyword=True)
         vandalise(handed_out[-1])
